@@ -179,6 +179,7 @@ def work(ctx, idx):
             wr.notes.append('scn %d unbuildable: %s' % (idx, (b.msg or bs.msg).strip()[:200]))
         return wr
     wr.scenarios = 1
+    wr.stats['back-end:' + sc.flavor] += 1
     per_class = collections.Counter()
 
     def report(cls, detail, case, where, seq=-1):
